@@ -53,6 +53,10 @@ def lit(text):
     return mk('lit', text)
 
 
+def mknot(x):
+    return x.args[0] if x.op == 'not' else mk('not', x)
+
+
 # ====================================================================================================== dimensions
 class Sym:
     """a batch dimension: `name` 'K', Lean size variable `lean` 'k', canonical index variable `var` 'j'"""
@@ -747,9 +751,12 @@ class Engine:
     def setitem(self, t, items, val, what):
         """`t[items] = val` -> the new array"""
         if len(items) == 1 and isinstance(items[0], T) and items[0].kind == 'b':
-            mask = self.broadcast_to(items[0], t.shape, ' (mask of ' + what + ')') if len(items[0].shape) <= len(t.shape) else None
-            if mask is None:
+            mask = items[0]
+            if len(mask.shape) > len(t.shape):
                 raise TranslateError('mask of higher rank than the array in ' + what)
+            while len(mask.shape) < len(t.shape):       # a mask addresses the LEADING axes
+                mask = self.unsqueeze(mask, len(mask.shape))
+            mask = self.broadcast_to(mask, t.shape, ' (mask of ' + what + ')')
             v = self.broadcast_to(self.as_t(val), t.shape, ' (masked store ' + what + ')')
             return T(t.shape, lambda idx: mk('ite', mask.fn(idx), v.fn(idx), t.fn(idx)), t.kind)
         # the addressed sub-array: positions of the kept axes and the fixed (component) indices
@@ -962,7 +969,7 @@ class Interp:
                 if isinstance(a, bool):
                     return not a
                 if isinstance(a, T) and a.kind == 'b':
-                    return e.ew1(lambda x: mk('not', x), a)
+                    return e.ew1(mknot, a)
             raise TranslateError('unsupported unary ' + ast.unparse(node))
         if isinstance(node, ast.BinOp):
             return self.binop(node)
@@ -1057,7 +1064,7 @@ class Interp:
         if is_dim(l) and num(r):
             return self.dim_compare(l, op, r, src)
         if isinstance(l, T) and l.kind == 'b' and isinstance(r, bool) and isinstance(op, ast.Eq):
-            return l if r else e.ew1(lambda x: mk('not', x), l)
+            return l if r else e.ew1(mknot, l)
         if isinstance(l, bool) and isinstance(r, bool) and isinstance(op, ast.Eq):
             return l == r
         if (isinstance(l, T) or num(l)) and (isinstance(r, T) or num(r)):
@@ -1539,10 +1546,10 @@ class Interp:
             if a is True and b is False:
                 raise Returned(t)
             if a is False and b is True:
-                raise Returned(self.e.ew1(lambda x: mk('not', x), t))
+                raise Returned(self.e.ew1(mknot, t))
             zero = lambda v: isinstance(v, (list, tuple)) and all(x == 0 and not isinstance(x, bool) for x in v)
             if zero(a) and not zero(b):
-                raise Returned(Guarded(self.e.ew1(lambda x: mk('not', x), t), b))
+                raise Returned(Guarded(self.e.ew1(mknot, t), b))
             if zero(b) and not zero(a):
                 raise Returned(Guarded(t, a))
             raise TranslateError('unsupported results of the data-dependent branch `%s`' % ast.unparse(st.test))
